@@ -86,10 +86,10 @@ def ref_graph(c, timeout=1800):
     return g, res
 
 
-def impl_check(c, weighted, timeout=3000):
+def impl_check(c, weighted, timeout=3000, workers=16):
     cc = dict(c, Weighted=bool(weighted))
     cfg = tlc.cfg_text(cc, view="View", invariants=INV_IMPL, properties=["RefSpec"])
-    return tlc.run_tlc("ListDictImpl", cfg, workers=16, coverage=True, timeout=timeout)
+    return tlc.run_tlc("ListDictImpl", cfg, workers=workers, coverage=True, timeout=timeout)
 
 
 def branch_coverage(res, module="ListDictImpl"):
